@@ -600,6 +600,99 @@ pub fn replay(case: &serde_json::Value) -> i32 {
     1
 }
 
+/// Descriptors the shell opens for its own use (script being read, dot scripts, saved copies of
+/// redirected descriptors, here-document and substitution plumbing) stay at 10 or above with
+/// close-on-exec set — also when descriptors 3..9 are all taken by the user — and nothing else
+/// appears below 10.
+fn internal_descriptors(ctx: &Ctx) -> u64 {
+    let inner: &[(&str, &str)] = &[
+        ("dot", ". ./script"),
+        ("nested-dot", ". ./script2"),
+        ("dot-redirected", ". ./script >w 2>&1"),
+        ("group-redirected", "{ fds in; ( fds sub ); } >w 2>&1 <e"),
+        ("function-redirected", "f() { fds in; }; f 3>w; f <e"),
+        ("substitution", "x=$(fds in); y=`fds bq`; : $(fds arg) <e"),
+        ("here-document", "{ fds in; cat >/dev/null; } <<E\nbody\nE"),
+        ("pipeline", "fds in | { cat >/dev/null; fds last; }"),
+        ("eval", "eval 'fds in; . ./script'"),
+        ("builtin-redirected", "fds in >w; fds in2 2>>w <e"),
+        ("trap", "trap 'fds in' USR1; kill -s USR1 $$; trap - USR1"),
+        ("async", "{ fds in; } & wait"),
+    ];
+    let preludes: &[(&str, &[i32])] = &[
+        ("", &[0, 1, 2]),
+        ("exec 3<e 4<e 5<e 6<e 7<e 8<e 9<e", &[0, 1, 2, 3, 4, 5, 6, 7, 8, 9]),
+        ("exec 3<e 5<e 9>>w", &[0, 1, 2, 3, 5, 9]),
+    ];
+    // how the main script itself is read: -c string, script file operand, standard input
+    let mains = ["-c", "file", "stdin"];
+    let mut runs = 0;
+    for (iname, itext) in inner {
+        for (prelude, low) in preludes {
+            for main in mains {
+                let text = format!("cd /tmp/w\n{prelude}\nfds before\n{}\nfds after\n", itext.replace("\\n", "\n"));
+                let mut s = match main {
+                    "-c" => Setup::script(&text),
+                    "file" => {
+                        let mut s = Setup::default();
+                        s.argv = vec!["yash".into(), "/tmp/w/main".into()];
+                        s
+                    }
+                    _ => {
+                        let mut s = Setup::default();
+                        s.argv = vec!["yash".into(), "-s".into()];
+                        s.stdin = Some(text.clone().into_bytes());
+                        s
+                    }
+                };
+                s.dirs.push("/tmp/w".into());
+                s.files.push(("/tmp/w/main".into(), text.clone().into_bytes(), 0o644));
+                s.files.push(("/tmp/w/e".into(), b"E\n".to_vec(), 0o644));
+                s.files.push(("/tmp/w/w".into(), b"W\n".to_vec(), 0o644));
+                s.files.push(("/tmp/w/script".into(), b"fds dot\n( fds dotsub )\nfds dot2 <e\n".to_vec(), 0o644));
+                s.files.push(("/tmp/w/script2".into(), b"fds outer\n. ./script\nfds outer2\n".to_vec(), 0o644));
+                s.cwd = Some("/".into());
+                let r = run_once(&s, &Default::default());
+                runs += 1;
+                let case = || json!({"part": "internal", "scenario": iname, "script": text, "shell_reads_script_from": main});
+                if let Some(p) = &r.panic {
+                    ctx.violation("c09:panic", &format!("panic: {p}"), case());
+                    continue;
+                }
+                let mut probes = 0;
+                for e in &r.trace {
+                    let Some(rest) = e.text.strip_prefix("fds ") else { continue };
+                    probes += 1;
+                    let (tag, table) = rest.split_once(' ').unwrap_or((rest, ""));
+                    if let Some(bad) = high_not_cloexec(table) {
+                        ctx.violation(
+                            "c09:internal-fd-not-cloexec",
+                            &format!("at `{tag}` a descriptor >= 10 is open without close-on-exec ({bad}): {table}"),
+                            case(),
+                        );
+                        break;
+                    }
+                    // below 10: only what the user opened (a redirection in effect may add 3 or 0..2 targets)
+                    let lowfds: Vec<i32> = table.split_whitespace().filter_map(|t| t.split('=').next()?.parse().ok()).filter(|fd| *fd < 10).collect();
+                    if let Some(extra) = lowfds.iter().find(|fd| !low.contains(fd) && !(**fd == 3 && itext.contains("3>w"))) {
+                        ctx.violation(
+                            "c09:internal-fd-below-10",
+                            &format!("at `{tag}` descriptor {extra} is open although the script never opened it: {table}"),
+                            case(),
+                        );
+                        break;
+                    }
+                }
+                // (stdin feed: fd 0 is the script itself; a probe count of 0 means the scenario did not run)
+                if probes < 3 {
+                    ctx.violation("c09:internal-scenario-did-not-run", &format!("only {probes} probes ran; stderr {:?}", r.stderr), case());
+                }
+            }
+        }
+    }
+    runs
+}
+
 pub fn run(tier: Tier) -> i32 {
     let ctx = Ctx::new("C09", "fault_enumeration", tier);
     let thorough = tier == Tier::Thorough;
@@ -674,10 +767,12 @@ pub fn run(tier: Tier) -> i32 {
         }
         samples.offer(|| describe(c));
     });
+    let internal_runs = internal_descriptors(&ctx);
     let cov = json!({
-        "evaluations": evals.load(Relaxed),
+        "internal_descriptor_scenarios": internal_runs,
+        "evaluations": evals.load(Relaxed) + internal_runs,
         "distinct_nontrivial": nontrivial.lock().unwrap().len(),
-        "rule": "every redirection list of length <= 2 (thorough: + a length-3 slice) over the operator x target-fd x operand alphabet, on each of 11 command kinds, with noclobber on/off where it matters; fault cases repeat lists under `ulimit -n N` for every N in 5..=14 so that each descriptor allocation (save-dup to >=10, open, here-document temp file, dup2) fails at some N. Non-trivial = a redirection fails, or a descriptor limit is in force, or two redirections hit the same descriptor; distinct by script text.",
+        "rule": "every redirection list of length <= 2 (thorough: + a length-3 slice) over the operator x target-fd x operand alphabet, on each of 11 command kinds, with noclobber on/off where it matters; fault cases repeat lists under `ulimit -n N` for every N in 5..=14 so that each descriptor allocation (save-dup to >=10, open, here-document temp file, dup2) fails at some N. Non-trivial = a redirection fails, or a descriptor limit is in force, or two redirections hit the same descriptor; distinct by script text. Plus 12 scenarios in which the shell holds descriptors of its own (dot scripts, nested dot, saved copies for redirected groups/functions/built-ins, substitutions, here-documents, pipelines, eval, traps, async lists) x 3 user descriptor layouts (none, 3..9 all taken, 3 5 9) x 3 ways of reading the main script (-c, file operand, standard input): at every probe every descriptor >= 10 is close-on-exec and nothing the script did not open is below 10.",
         "samples": samples.take(),
         "plain_cases": n_plain,
         "fault_cases": cases.len() - n_plain,
